@@ -21,7 +21,7 @@
    PARTIAL: mixed worlds (immediate and evaluator-driven bindings together, acting observers, replacement and destruction) are covered by the extracted checker PropCheck.check_c06_after_evalall on every evaluateAll of every generated
    history and by correspondence. *)
 From KDB Require Import Util PropDefs PropProofs.
-From KDB Require PropAbs PropAbsLazy PropCheck PropSim PropSimLazy PropGrowLazy PropGrowMore PropGrowLazyMore PropReg.
+From KDB Require PropAbs PropAbsLazy PropCheck PropSim PropSimLazy PropGrowLazy PropGrowMore PropGrowLazyMore PropReg PropMoveLazy.
 
 (* a notification reaching a node of an evaluator-driven binding only sets dirty flags *)
 Theorem C06_notification_only_marks :
@@ -169,6 +169,31 @@ Example C06_reset_example :
   map (fun e => match e with EvVal v => v | _ => None end)
       (filter (fun e => match e with EvVal _ => true | _ => false end) (w_trace (run fn true 8 (ops ++ [BevEvalAll 0; PGet 1; PGet 2]))))
   = [Some 22%Z; Some 20%Z].
+Proof. split; [vm_compute; repeat split; reflexivity|vm_compute; reflexivity]. Qed.
+
+(* ... and for histories that also MOVE-CONSTRUCT properties (inputs, evaluator-driven ones, observed ones): coq/PropMoveLazy.v - the
+   registry is untouched, every registered target, tree and leaf is the old one with the source renamed to the destination *)
+Theorem C06_network_with_moves_one_pass :
+  forall fn rtl ev, ev <> 0 -> forall f ops e w',
+    PropMoveLazy.lazy_run3_ok fn rtl f world0 ops ->
+    lookup (w_bevs (run fn rtl (S f) ops)) e = Some ev ->
+    step1 fn rtl (S f) (run fn rtl (S f) ops) (BevEvalAll e) = (w', None) ->
+    forall st, nth_error (w_evps (run fn rtl (S f) ops)) ev = Some st ->
+    forall q x pr z, In q (PropSimLazy.regs_of (run fn rtl (S f) ops) (ep_registry st)) -> PropSimLazy.lz_of w' q = Some x ->
+      lookup (w_props w') q = Some pr -> PropCheck.den_node fn (values w') (b_root x) = Some z -> pr_value pr = z.
+Proof. exact PropMoveLazy.lazy3_reachable_one_pass. Qed.
+Print Assumptions C06_network_with_moves_one_pass.
+
+(* non-vacuity: the input 0 and the evaluator-driven property 1 of the chain 0 -> 1 -> 2 are move-constructed to 10 and 11; an
+   assignment to the NEW input and one evaluateAll bring 11 and 2 up to date *)
+Example C06_moves_example :
+  let fn := fun (f : nat) (l : list Z) => Some (fold_right Z.add (Z.of_nat f) l) in
+  let ops := [PNew 0 1%Z; BevNew 0; PBind 1 (EOp1 1 (EProp 0)) (MEvaluator 0); PBind 2 (EOp1 2 (EProp 1)) (MEvaluator 0);
+              PMoveCtor 0 10; PMoveCtor 1 11; PSet 10 7%Z WSet] in
+  PropMoveLazy.lazy_run3_ok fn true 7 world0 ops /\
+  map (fun e => match e with EvVal v => v | _ => None end)
+      (filter (fun e => match e with EvVal _ => true | _ => false end) (w_trace (run fn true 8 (ops ++ [BevEvalAll 0; PGet 11; PGet 2]))))
+  = [Some 10%Z; Some 8%Z].
 Proof. split; [vm_compute; repeat split; reflexivity|vm_compute; reflexivity]. Qed.
 
 (* ---- "Bindings that were reset, replaced or destroyed are never evaluated again", for EVERY history (coq/PropReg.v) ---- *)
